@@ -47,7 +47,11 @@ PROPS = {
         "drivers": [drv("addsub", "debug"), drv("addsub", "release", tiers=T)],
     },
     "C02": {
-        "mc": L0_QUICK + L0_THOROUGH,
+        "mc": L0_QUICK + L0_THOROUGH + [
+            algo("Mac3.tla", "Mac3_q.cfg", workers=10), algo("Mac3.tla", "Mac3_cal1.cfg", expect="violation"),
+            algo("Mac3.tla", "Mac3_cal2.cfg", expect="violation"),
+            algo("Mac3.tla", "Mac3_t1.cfg", workers=14, tiers=T), algo("Mac3.tla", "Mac3_t2.cfg", workers=14, heap="12g", tiers=T),
+            algo("Mac3.tla", "Mac3_t3.cfg", workers=14, heap="12g", tiers=T)],
         "drivers": [drv("mul", "debug"), drv("mul", "release", tiers=T)],
     },
     "C03": {
@@ -205,3 +209,5 @@ PROPS["C01"]["custom"] = _asmx.run
 PROPS["C15"]["custom"] = _asmx.run
 import rbind as _rbind  # noqa: E402
 PROPS["C09"]["custom"] = _rbind.iter_step
+import costdrift as _costdrift  # noqa: E402
+PROPS["C20"]["custom"] = _costdrift.run
